@@ -7,7 +7,11 @@
      - the k-th of them saw exactly k mutations: those of the attempt's earlier callbacks, no others   (state threads, nothing leaks in)
      - an instance first seen in one attempt is never seen in another attempt or scenario              (no sharing)
    whatever the interleaving. An after hook that was handed no World (instance 0) imposes nothing here (whether it must get
-   one is the attempt-level contract `c09_ok`). Monitor only: the scheduler model has no callbacks. *)
+   one is the attempt-level contract `c09_ok`). Monitor only: the scheduler model has no callbacks.
+   Harness conventions this monitor relies on (third review, M1): every callback of the `sched` engine records the instance and
+   mutates it (counter + 1) as its VERY FIRST action, before it waits for its gate and before any scripted panic — so a callback
+   that panics has still mutated the World it was handed; the order of the before hook, the steps and the after hook within
+   an attempt, and whether a step may run without a World, are judged by the attempt-level contract, not here. *)
 From CV Require Import Model.Base Check.Verdict.
 
 Record wrec := mk_wrec { w_sc : N; w_att : N; w_which : N; w_wid : N; w_cnt : N }.
